@@ -3,7 +3,7 @@ import argparse, json, os, re, shutil, subprocess, sys, time, hashlib, glob
 from concurrent.futures import ThreadPoolExecutor
 
 VERIF = os.path.dirname(os.path.dirname(os.path.abspath(__file__)))
-REPO = "/repo"
+REPO = os.environ.get("VERIF_REPO", "/repo")   # development aid: run the checks against a scratch copy of the repository
 TLA_CP = "/opt/veriftools/tla/tla2tools.jar:/opt/veriftools/tla/CommunityModules-deps.jar"
 NCPU = os.cpu_count() or 4
 
@@ -30,12 +30,19 @@ def run(cmd, cwd=None, env=None, timeout=None, ok=(0,)):
 
 def build_harness(work, binary="gopt", race=False):
     os.makedirs(GOENV["GOCACHE"], exist_ok=True)
-    out = os.path.join(work, binary)
+    out = os.path.join(work, binary + ("-race" if race else ""))
     cmd = ["go", "build", "-tags", "verif"]
     if race:
         cmd.append("-race")
     cmd += ["-o", out, "./cmd/" + binary]
-    p = subprocess.run(cmd, cwd=os.path.join(VERIF, "harness"), env=GOENV, stdout=subprocess.PIPE, stderr=subprocess.STDOUT, text=True)
+    hdir = os.path.join(VERIF, "harness")
+    if REPO != "/repo":
+        hdir = os.path.join(work, "harness-src")
+        if not os.path.exists(hdir):
+            shutil.copytree(os.path.join(VERIF, "harness"), hdir)
+            gm = open(os.path.join(hdir, "go.mod")).read().replace("=> /repo", "=> " + REPO)
+            open(os.path.join(hdir, "go.mod"), "w").write(gm)
+    p = subprocess.run(cmd, cwd=hdir, env=GOENV, stdout=subprocess.PIPE, stderr=subprocess.STDOUT, text=True)
     if p.returncode != 0:
         # /repo does not compile with the hooks on: nothing can be decided
         raise Broken("harness build failed:\n" + p.stdout[-4000:])
